@@ -67,6 +67,9 @@ LOOP_DEBUG_DEFAULT = False
 # of the client object each time a frame reaches the simulated console (getters must be free of
 # side effects whenever they are called).
 POLL_DEFAULT = False
+# ... and, for every thirteenth case, the loop creates tasks eagerly
+# (loop.set_task_factory(asyncio.eager_task_factory), Python 3.12).
+EAGER_DEFAULT = False
 
 
 def attach_log(log, debug=False):
@@ -85,6 +88,9 @@ def run(main_factory, *, debug_logging=False, loop_debug=False):
     Returns (result, log, status) where status is 'ok' | 'quiescent' (deterministic hang) |
     'livelock' (a task spins at one virtual instant)."""
     loop, net, log = world(debug_logging)
+    if EAGER_DEFAULT or os.environ.get("VF_EAGER"):
+        # the application runs its loop with eager task execution (Python 3.12)
+        loop.set_task_factory(asyncio.eager_task_factory)
     if loop_debug or LOOP_DEBUG_DEFAULT or os.environ.get("VF_LOOP_DEBUG"):
         loop.set_debug(True)
     status = "ok"
